@@ -136,6 +136,7 @@ pub struct C12 {
     sub_ref: Lazy<BTreeMap<usize, (u64, Vec<String>)>>,
     rink_bin: Option<String>,
     ext_ref: Lazy<Result<String, String>>,
+    text_ref: Lazy<(String, Vec<String>)>,
 }
 
 const EXT: [&str; 6] = [
@@ -146,6 +147,29 @@ const EXT: [&str; 6] = [
     "ext_e 7 ext_cs\n",
     "ext_q ? length^5 / time^7\n",
 ];
+
+/// Text-level family: the snippets are concatenated in every order into 1-3 files which are parsed
+/// as files (doc comments, categories and other parser state carry from line to line), unlike family
+/// (a) which permutes already parsed entries.
+const TEXTS: [&str; 7] = [
+    "?? the metre\nm !meter\n",
+    "?? how long something is\nlength ? m\n",
+    "foot 0.3048 m\n",
+    "?? three feet\nyard 3 foot\n",
+    "area ? length^2\n",
+    "?? a thousand\nkilo- 1000\n",
+    "stuff {\n    heaviness weight 3 foot / size 2 m\n}\n",
+];
+/// cut points (i <= j) of a 7-item sequence into files [0,i) [i,j) [j,7)
+fn cuts() -> Vec<(usize, usize)> {
+    let mut v = vec![];
+    for i in 0..=TEXTS.len() {
+        for j in i..=TEXTS.len() {
+            v.push((i, j));
+        }
+    }
+    v
+}
 
 impl C12 {
     pub fn new(tier: &str) -> C12 {
@@ -163,6 +187,7 @@ impl C12 {
         fams.add("bundled database: rotations", vec![(b.len() / rot_step) as u64]);
         let rink_bin = std::env::var("RINK_BIN").ok().filter(|p| std::path::Path::new(p).exists());
         fams.add("split across files through the real binary", vec![if rink_bin.is_none() { 0 } else if thorough { 64 } else { 16 }, 2]);
+        fams.add("text-level: every order of 7 snippets x every split into up to 3 files", vec![5040, cuts().len() as u64]);
         C12 {
             fams,
             subsets,
@@ -173,6 +198,7 @@ impl C12 {
             sub_ref: Lazy::new(),
             rink_bin,
             ext_ref: Lazy::new(),
+            text_ref: Lazy::new(),
         }
     }
 
@@ -223,7 +249,7 @@ impl Space for C12 {
         Meta {
             id: "C12",
             level: "exploration",
-            rule: "(a) all 5040 permutations of every dependency-closed 7-subset (quick: every 4th) of a 22-definition pool (4-long alias chain, diamond, dependency reachable only through a prefix split / only through a plural, long+short prefixes defined through each other, quantities, a substance, category, docs); (b) the bundled database reversed, sorted by name ascending/descending, in dependency-reversed order, and under every rotation (quick: every 24th); (c) a 6-definition extension set distributed over ./definitions.units and $XDG_CONFIG_HOME/rink/definitions.units in all 2^6 assignments x both internal orders through the real `rink --dump`. Oracle: byte-identical Debug dump of the whole Registry and identical error multiset versus the reference order. Non-trivial = all; distinct by the order used".into(),
+            rule: "(a) all 5040 permutations of every dependency-closed 7-subset (quick: every 4th) of a 22-definition pool (4-long alias chain, diamond, dependency reachable only through a prefix split / only through a plural, long+short prefixes defined through each other, quantities, a substance, category, docs); (b) the bundled database reversed, sorted by name ascending/descending, in dependency-reversed order, and under every rotation (quick: every 24th); (c) a 6-definition extension set distributed over ./definitions.units and $XDG_CONFIG_HOME/rink/definitions.units in all 2^6 assignments x both internal orders through the real `rink --dump`; (d) text level: all 5040 orders of 7 snippets (documented and undocumented base unit, quantities, units, prefix, substance) x all 36 splits into up to 3 files, each file parsed as a file (parser state such as a pending `??` comment carries between lines), against the snippets parsed one by one. Oracle: byte-identical Debug dump of the whole Registry and identical error multiset versus the reference order. Non-trivial = all; distinct by the order used".into(),
             assumptions: vec![
                 "premise of the statement: uniquely named definitions - entries sharing (namespace, name) in the shipped file are reduced to their last occurrence before permuting (listed in the evidence)".into(),
                 "Debug of Registry shows every field".into(),
@@ -245,6 +271,17 @@ impl Space for C12 {
             }
             1 => format!("bundled database {}", ["reversed", "sorted by name ascending", "sorted by name descending", "in dependency-reversed order"][d[0] as usize]),
             2 => format!("bundled database rotated by {}", (d[0] as usize + 1) * self.rot_step),
+            4 => {
+                let p = nth_permutation(TEXTS.len(), d[0]);
+                let (i, j) = cuts()[d[1] as usize];
+                let name = |k: &usize| ["m", "length", "foot", "yard", "area", "kilo", "stuff"][*k];
+                format!(
+                    "files: [{}] [{}] [{}]",
+                    p[..i].iter().map(name).collect::<Vec<_>>().join(", "),
+                    p[i..j].iter().map(name).collect::<Vec<_>>().join(", "),
+                    p[j..].iter().map(name).collect::<Vec<_>>().join(", ")
+                )
+            }
             _ => format!("extension set split by mask {:06b}, order {}", self.mask(d[0]), if d[1] == 0 { "forward" } else { "reversed" }),
         }
     }
@@ -319,6 +356,36 @@ impl Space for C12 {
                 }
                 if &errs != berrs {
                     out = out.viol("reported problems depend on definition order (bundled)", format!("{}: {:?}", desc, errs));
+                }
+                out
+            }
+            4 => {
+                let p = nth_permutation(TEXTS.len(), d[0]);
+                let (i, j) = cuts()[d[1] as usize];
+                let desc = self.describe(idx);
+                let rf = self.text_ref.get(|| {
+                    let defs: Vec<DefEntry> = TEXTS.iter().flat_map(|t| parse_str(t).defs).collect();
+                    let (dump, errs) = load_dump(defs);
+                    (dump, errs)
+                });
+                let mut defs = vec![];
+                for part in [&p[..i], &p[i..j], &p[j..]] {
+                    let text: String = part.iter().map(|k| TEXTS[*k]).collect();
+                    defs.extend(parse_str(&text).defs);
+                }
+                let (dump, errs) = load_dump(defs);
+                let mut out = CaseOut::ok("text permutation and split").key(key);
+                if dump != rf.0 {
+                    let (a, b) = (&dump, &rf.0);
+                    let at = a.bytes().zip(b.bytes()).position(|(x, y)| x != y).unwrap_or(a.len().min(b.len()));
+                    let lo = at.saturating_sub(60);
+                    out = out.viol(
+                        "database depends on the order / file split of the definition text",
+                        format!("{}: ...{}... instead of ...{}...", desc, engine::util::clip(&a[lo..], 160), engine::util::clip(&b[lo..], 160)),
+                    );
+                }
+                if errs != rf.1 {
+                    out = out.viol("reported problems depend on the order / file split of the definition text", format!("{}: {:?} vs {:?}", desc, errs, rf.1));
                 }
                 out
             }
